@@ -53,6 +53,7 @@ FIXES = [
     ('25-C08-bspline-floating-work-arrays.patch', 'C08', 'C08.FLOAT-WORK'),
     ('26-C04-decbounds-exact-upper-edge.patch', 'C04', 'C04.GRID'),
     ('27-C09-maskpoints-empty-failure-list.patch', 'C09', 'C09.SCREEN'),
+    ('28-C11-combine1fiber-bad-region-exact-zero.patch', 'C11', 'C11.SCALE-FREE'),
 ]
 
 
